@@ -481,6 +481,8 @@ func xoperand(name string, shape int) []xtok {
 		return []xtok{xs("*"), xs(name)}
 	case 9:
 		return []xtok{xs(name), {kind: '[', kids: []xtok{xs("i"), xs("+"), xn("1")}}, {kind: 'd', text: ".k"}}
+	case 10:
+		return []xtok{xn("-3")}
 	}
 	return []xtok{xs(name)}
 }
@@ -689,9 +691,9 @@ func xgen(g *Gen) {
 	}
 	// 2. every operator pair with every operand shape in every position (prefix not, index,
 	//    dotted path, call, nested block, slice, literal, deref, index+field)
-	for s0 := 0; s0 < 10; s0++ {
-		for s1 := 0; s1 < 10; s1++ {
-			for s2 := 0; s2 < 10; s2++ {
+	for s0 := 0; s0 < 11; s0++ {
+		for s1 := 0; s1 < 11; s1++ {
+			for s2 := 0; s2 < 11; s2++ {
 				if !g.Thorough() && s0 != 0 && s1 != 0 && s2 != 0 && (s0+s1+s2)%3 != 0 {
 					continue
 				}
@@ -718,7 +720,7 @@ func xgen(g *Gen) {
 		}
 		for i := range shapes {
 			if g.Rng.Intn(3) == 0 {
-				shapes[i] = g.Rng.Intn(10)
+				shapes[i] = g.Rng.Intn(11)
 			}
 		}
 		g.emitTree(xseq(ops, shapes), g.Rng.Intn(3), fmt.Sprintf("sampled-%d-ops", n))
